@@ -132,6 +132,8 @@ func probeChild(planFile string) {
 		root = debug.New(root, func(debug.Command, ...[]byte) {})
 	case 3:
 		root = flushkv.New(debug.New(root, func(debug.Command, ...[]byte) {}))
+	case 4:
+		root = debug.New(flushkv.New(root), func(debug.Command, ...[]byte) {}, debug.SetCommand, debug.GetCommand)
 	}
 	views := make([]kvstore.KVStore, len(probeRealms))
 	for i, rl := range probeRealms {
